@@ -132,14 +132,14 @@ prop(
     technique="runtime monitoring: shadow write queue checked after every enqueue/try_write call of the real connection under enumerated write faults of a scripted stream",
     design_ref="DESIGN.md §3 C06",
     engine="scripted-stream",
-    rule="Exhaustive: every sequence of length 6 (quick) / 8 (thorough) over {enqueue small, enqueue 8 KiB, write with the stream "
+    rule="Exhaustive: every sequence of length 6 (quick) / 8 (thorough) over {enqueue small, enqueue 8 KiB, a burst of 3 queued EINTRs + write, write with the stream "
          "accepting 1 / len-1 / len / half, EINTR, EAGAIN, EPIPE, 0 bytes} followed by two flushing writes; every k in 1..len "
          "at the first and second write of single responses; random runs of 5-60 calls with 0-6 responses outstanding. After "
          "every call: accepted bytes == shadow concatenation, pending_write() == shadow has unsent bytes, return value, at most "
          "one stream write, none when nothing is pending. evaluations = sequences executed; distinct_nontrivial = distinct "
          "sequences that contained at least one partial write or one discard.",
     assumptions=["responses are serialized with Response::write_all to obtain the expected bytes (serialization itself is C05's subject)"],
-    exhaustive={"quick": "all 10^6 call sequences of length 6 over the 10-letter alphabet", "thorough": "all 10^8 call sequences of length 8 over the 10-letter alphabet"},
+    exhaustive={"quick": "all 11^6 call sequences of length 6 over the 11-letter alphabet", "thorough": "all 11^8 call sequences of length 8 over the 11-letter alphabet"},
     floors={"any": {"partial_writes": 1000, "discards_after_failure": 1000, "eintr_writes": 500, "writes_with_nothing_pending": 500,
                     "responses_fully_written": 1000, "single_response_every_k": 200}},
 )
